@@ -108,7 +108,8 @@ type RefClient struct {
 type DropRec struct {
 	RID   string
 	T     int
-	Cause string // action of the response, or "event", whose processing made the client drop it
+	Cause string   // action of the response, or "event", whose processing made the client drop it
+	Refs  []string // the resources it referenced (non-soft) when it was dropped
 }
 
 // Handover records that a frame carried data (or an error) for a rid.
@@ -366,13 +367,27 @@ func (c *RefClient) gc(t int) {
 	}
 	for rid := range c.Held {
 		if !reach[rid] {
+			var refs []string
+			if r := c.Held[rid]; r != nil {
+				for _, v := range r.Model {
+					if ref, ok := isRef(v); ok {
+						refs = append(refs, ref)
+					}
+				}
+				for _, v := range r.Coll {
+					if ref, ok := isRef(v); ok {
+						refs = append(refs, ref)
+					}
+				}
+				sort.Strings(refs)
+			}
 			delete(c.Held, rid)
 			c.Dropped[rid]++
 			cause := "event"
 			if c.LastResp != nil {
 				cause = c.LastResp.Action
 			}
-			c.DropLog = append(c.DropLog, DropRec{RID: rid, T: t, Cause: cause})
+			c.DropLog = append(c.DropLog, DropRec{RID: rid, T: t, Cause: cause, Refs: refs})
 		}
 	}
 }
@@ -391,6 +406,7 @@ func (c *RefClient) checkDangling(t int) {
 				if _, held := c.Held[ref]; !held {
 					c.viol("C02", "dangling_reference", t, "after frame at t=%d resource %s references %s for which the client has neither data nor error", t, rid, ref)
 					c.Viol[len(c.Viol)-1].Other = ref
+					c.Viol[len(c.Viol)-1].RID = rid
 				}
 			}
 		}
